@@ -331,6 +331,9 @@ fn main() {
                 cap = args[i + 1].parse().unwrap();
                 i += 2;
             }
+            "--noop" => {
+                i += 1;
+            }
             other => panic!("unknown argument {other}"),
         }
     }
@@ -350,4 +353,10 @@ fn main() {
     }
     let _ = writeln!(out, "DONE {}", lines.len());
     let _ = out.flush();
+    if cfg!(miri) {
+        // Let the pool's worker threads notice the closed channels and exit.
+        for _ in 0..3000 {
+            std::thread::yield_now();
+        }
+    }
 }
